@@ -3,7 +3,7 @@ the real library and project the observation into the specification's vocabulary
 Deliberately dumb: attribute reads and constructor calls only."""
 from __future__ import annotations
 
-from .core import outcome, octs, after_pack, decoded, live, scramble, rxbuf
+from .core import outcome, octs, after_pack, decoded, live, scramble, rxbuf, owned
 from .probe import decode_other, poison, twin
 
 
@@ -17,6 +17,15 @@ def _mk_hdr(h, via="ctor"):
     from spacepackets.ccsds.spacepacket import (SpacePacketHeader, PacketType, SequenceFlags, PacketId,
                                                 PacketSeqCtrl)
     if via == "composite":
+        if (h["apid"] + h["count"] + h["dlen"]) % 2:
+            # the composite objects existed before with other values and are brought to the wanted ones through their public
+            # attributes (they are plain mutable objects): what they hold now is what must be encoded - or refused
+            pid = PacketId(PacketType(1 - h["type"]), not bool(h["shf"]), 0x2AA)
+            psc = PacketSeqCtrl(SequenceFlags((h["flags"] + 1) % 4), 0x1555)
+            pid.raw(), psc.raw()
+            pid.ptype, pid.sec_header_flag, pid.apid = PacketType(h["type"]), bool(h["shf"]), h["apid"]
+            psc.seq_flags, psc.seq_count = SequenceFlags(h["flags"]), h["count"]
+            return SpacePacketHeader.from_composite_fields(pid, psc, h["dlen"], h["ver"])
         return SpacePacketHeader.from_composite_fields(
             PacketId(PacketType(h["type"]), bool(h["shf"]), h["apid"]),
             PacketSeqCtrl(SequenceFlags(h["flags"]), h["count"]), h["dlen"], h["ver"])
@@ -42,6 +51,16 @@ def _mk_hdr(h, via="ctor"):
             o.seq_flags = SequenceFlags(h["flags"])
         o.data_len = h["dlen"]
         return o
+    # the constructor under either of its public names, arguments by keyword or by position
+    k = (h["apid"] + h["count"] + h["dlen"] + h["ver"]) % 3
+    if k == 1:
+        import spacepackets
+        return spacepackets.SpHeader(packet_type=PacketType(h["type"]), apid=h["apid"], seq_count=h["count"],
+                                     data_len=h["dlen"], sec_header_flag=bool(h["shf"]),
+                                     seq_flags=SequenceFlags(h["flags"]), ccsds_version=h["ver"])
+    if k == 2:
+        from spacepackets.ccsds import SpHeader
+        return SpHeader(PacketType(h["type"]), h["apid"], h["count"], h["dlen"], bool(h["shf"]), SequenceFlags(h["flags"]), h["ver"])
     return SpacePacketHeader(packet_type=PacketType(h["type"]), apid=h["apid"], seq_count=h["count"],
                              data_len=h["dlen"], sec_header_flag=bool(h["shf"]),
                              seq_flags=SequenceFlags(h["flags"]), ccsds_version=h["ver"])
@@ -103,6 +122,10 @@ def mk_tc(p, via="ctor"):
         tc.source_id = p["source"]
         tc.app_data = data
         return tc
+    if (p["apid"] + p["seq"] + len(data)) % 3 == 1:
+        from spacepackets.ecss import PusTelecommand            # the constructor under its other public name
+        return PusTelecommand(service=p["service"], subservice=p["subservice"], apid=p["apid"], app_data=data,
+                              seq_count=p["seq"], source_id=p["source"], ack_flags=p["ack"])
     return PusTc(service=p["service"], subservice=p["subservice"], apid=p["apid"], app_data=data,
                  seq_count=p["seq"], source_id=p["source"], ack_flags=p["ack"])
 
@@ -139,10 +162,14 @@ def mk_tm(p, via="tm"):
         tm.apid = p["apid"]
         tm.tm_data = bytes(p["data"])
         return tm
-    return PusTm(service=p["service"], subservice=p["subservice"], timestamp=bytes(p["stamp"]),
-                 source_data=bytes(p["data"]), apid=p["apid"], seq_count=p["seq"],
-                 message_counter=p["msgcnt"], space_time_ref=p["timeref"], destination_id=p["dest"],
-                 packet_version=p["ver"])
+    cls = PusTm
+    if (p["apid"] + p["seq"] + len(p["data"])) % 3 == 1:
+        from spacepackets.ecss import PusTelemetry              # the constructor under its other public name
+        cls = PusTelemetry
+    return cls(service=p["service"], subservice=p["subservice"], timestamp=bytes(p["stamp"]),
+               source_data=bytes(p["data"]), apid=p["apid"], seq_count=p["seq"],
+               message_counter=p["msgcnt"], space_time_ref=p["timeref"], destination_id=p["dest"],
+               packet_version=p["ver"])
 
 
 def _inner_tm(x):
@@ -156,7 +183,7 @@ def op_sph_build(a):
 
     def run():
         o = _mk_hdr(h, a.get("via", "ctor"))
-        raw = o.pack()
+        raw = owned(o.pack)
         back = sp.SpacePacketHeader.unpack(bytes(raw))
         b1, b2 = sp.get_space_packet_id_bytes(sp.PacketType(h["type"]), bool(h["shf"]), h["apid"], h["ver"])
         pid2 = sp.get_sp_packet_id_raw(sp.PacketType(h["type"]), bool(h["shf"]), h["apid"])
@@ -228,7 +255,7 @@ def op_tc_rt(a):
         twin(lambda: mk_tc(a["p"], a.get("via", "ctor")), _mut)
         tc = mk_tc(a["p"], a.get("via", "ctor"))
         sp = tc.to_space_packet().pack()          # before pack(): must not depend on what an earlier pack() left behind
-        raw = tc.pack()
+        raw = owned(tc.pack)
         plen = tc.packet_len
         if bytes(tc.to_space_packet().pack()) != bytes(sp):
             sp = b"view changes across pack()"
@@ -289,7 +316,7 @@ def op_tm_rt(a):
         twin(lambda: mk_tm(a["p"], via), _mut)
         tm = mk_tm(a["p"], via)
         sp = _inner_tm(tm).to_space_packet().pack()
-        raw = tm.pack()
+        raw = owned(tm.pack)
         plen = _inner_tm(tm).packet_len
         if bytes(_inner_tm(tm).to_space_packet().pack()) != bytes(sp):
             sp = b"view changes across pack()"
